@@ -35,6 +35,8 @@ def random_case(rng, max_states=3, max_stack=2, max_trans=6, max_push=3, vcs=Non
             c["zperm"] = [rng.randrange(2) for _ in range(4)]
     if rng.random() < 0.15:
         c["form"] = "bulk"
+    if rng.random() < 0.3:
+        c["eps_form"] = rng.choice([1, 2])
     return c
 
 
@@ -64,6 +66,8 @@ def push_chain_case(rng, vcs=None):
     if c["vc"] == "inject":
         c["perm"] = rng.sample(range(4), 4)
         c["zperm"] = rng.sample(range(4), 4)
+    if rng.random() < 0.3:
+        c["eps_form"] = rng.choice([1, 2])
     return c
 
 
@@ -90,11 +94,14 @@ def build(c):
     tr = list(c["trans"])
     if "shuffle" in c:
         random.Random(c["shuffle"]).shuffle(tr)
+    from pyformlang.pda import Epsilon, Symbol
+    # the three accepted spellings of an epsilon move: the text, the Epsilon object, a Symbol carrying the text
+    eps = {1: Epsilon(), 2: Symbol("epsilon")}.get(c.get("eps_form", 0), "epsilon")
     if c.get("form") == "bulk":
-        p.add_transitions([(sval(c, q), "epsilon" if a < 0 else INPUTS[a], zval(c, X), sval(c, r),
+        p.add_transitions([(sval(c, q), eps if a < 0 else INPUTS[a], zval(c, X), sval(c, r),
                             [zval(c, y) for y in push]) for q, a, X, r, push in tr])
         return p
     for q, a, X, r, push in tr:
-        p.add_transition(sval(c, q), "epsilon" if a < 0 else INPUTS[a], zval(c, X), sval(c, r),
+        p.add_transition(sval(c, q), eps if a < 0 else INPUTS[a], zval(c, X), sval(c, r),
                          [zval(c, y) for y in push])
     return p
